@@ -94,7 +94,7 @@ def run(rep, tier, seed, budget):
             _judge(ctx, eng, col, r, snap, mk, (comp, attr))
         return path
 
-    A_TAB = dech.A_CORE + ["[NH1]", "[CH4]", "[nop]", "."]
+    A_TAB = ["[C]", "[=C]", "[#C]", "[Branch1]", "[=Branch1]", "[Ring1]", "[=Ring1]", "[epsilon]", "[NH1]", "[CH4]", "[nop]", "."]
 
     def tab_level(N):
         def path(eng, col):
